@@ -51,71 +51,114 @@ func runC20(c *core.Ctx) {
 			o.Fail("checkObjects never marks an object as broken")
 			return
 		}
-		// the condition guarding it: collect the disjuncts
-		var guard *core.V
-		for _, bv := range g.BranchVertices() {
-			if bv.Cond.Expr != nil && g.EdgeDominates(broken, core.EdgeRef{From: bv, Label: core.EdgeTrue}) && core.Mentions(info, bv.Cond.Expr, errObj) {
-				if strings.Contains(core.ExprStr(bv.Cond.Expr), "IsMalformed") {
-					guard = bv
+		// the three classifications of the parse error, as they occur in the function
+		var isMal, isEOF, isUEOF ast.Expr
+		ast.Inspect(fn.Decl.Body, func(n ast.Node) bool {
+			e, ok := n.(ast.Expr)
+			if !ok {
+				return true
+			}
+			if call, ok := core.IsCallTo(info, e, "pdf.IsMalformed"); ok && len(call.Args) == 1 && core.ObjOf(info, call.Args[0]) == errObj {
+				isMal = e
+			}
+			sentinel := func(x ast.Expr) string {
+				s := strings.ReplaceAll(core.ExprStr(x), " ", "")
+				if s == "io.EOF" || s == "io.ErrUnexpectedEOF" {
+					return s
 				}
+				return ""
 			}
-		}
-		if guard == nil {
-			o.Fail("the broken edge is not guarded by a classification of the parse error")
-			return
-		}
-		var disj []string
-		var walk func(e ast.Expr)
-		walk = func(e ast.Expr) {
-			e = ast.Unparen(e)
-			if be, ok := e.(*ast.BinaryExpr); ok && be.Op == token.LOR {
-				walk(be.X)
-				walk(be.Y)
-				return
-			}
-			// a local boolean defined once by an expression stands for that expression
-			if id, ok := e.(*ast.Ident); ok {
-				if v, isVar := info.ObjectOf(id).(*types.Var); isVar && types.Identical(v.Type(), types.Typ[types.Bool]) {
-					defs := core.AssignsTo(info, fn.Decl, v)
-					if len(defs) == 1 {
-						if as, ok := defs[0].(*ast.AssignStmt); ok && len(as.Rhs) == 1 {
-							walk(as.Rhs[0])
-							return
+			if be, ok := ast.Unparen(e).(*ast.BinaryExpr); ok && be.Op == token.EQL {
+				for _, pair := range [][2]ast.Expr{{be.X, be.Y}, {be.Y, be.X}} {
+					if core.ObjOf(info, pair[0]) == errObj {
+						switch sentinel(pair[1]) {
+						case "io.EOF":
+							isEOF = e
+						case "io.ErrUnexpectedEOF":
+							isUEOF = e
 						}
 					}
 				}
 			}
-			disj = append(disj, strings.ReplaceAll(core.ExprStr(e), " ", ""))
-		}
-		walk(guard.Cond.Expr)
-		o.Fact("broken when %v", disj)
-		has := func(s string) bool {
-			for _, d := range disj {
-				if d == s {
-					return true
+			if call, ok := core.IsCallTo(info, e, "errors.Is"); ok && len(call.Args) == 2 && core.ObjOf(info, call.Args[0]) == errObj {
+				switch sentinel(call.Args[1]) {
+				case "io.EOF":
+					isEOF = e
+				case "io.ErrUnexpectedEOF":
+					isUEOF = e
 				}
 			}
-			return false
+			return true
+		})
+		o.Require(isMal != nil, "malformed objects are not marked broken")
+		o.Require(isEOF != nil, "an object cut off by the end of the file (bare io.EOF) aborts the scan instead of being marked broken")
+		o.Require(isUEOF != nil, "an object cut off by the end of the file (io.ErrUnexpectedEOF) aborts the scan instead of being marked broken")
+		if isMal == nil || isEOF == nil || isUEOF == nil {
+			return
 		}
-		o.Require(has("IsMalformed(err)"), "malformed objects are not marked broken")
-		o.Require(has("err==io.EOF") || has("errors.Is(err,io.EOF)"), "an object cut off by the end of the file (bare io.EOF) aborts the scan instead of being marked broken")
-		o.Require(has("err==io.ErrUnexpectedEOF") || has("errors.Is(err,io.ErrUnexpectedEOF)"), "an object cut off by the end of the file (io.ErrUnexpectedEOF) aborts the scan instead of being marked broken")
-		o.Require(len(disj) == 3, "unexpected additional reasons to mark an object broken: %v", disj)
+		// boolean locals with a single definition stand for that definition
+		subst := map[types.Object]ast.Expr{}
+		ast.Inspect(fn.Decl.Body, func(m ast.Node) bool {
+			if as, ok := m.(*ast.AssignStmt); ok && as.Tok == token.DEFINE && len(as.Lhs) == 1 && len(as.Rhs) == 1 {
+				if obj := core.ObjOf(info, as.Lhs[0]); obj != nil && isBoolObj(obj) && len(core.AssignsTo(info, fn.Decl, obj)) == 1 {
+					subst[obj] = as.Rhs[0]
+				}
+			}
+			return true
+		})
+		any3 := &ast.BinaryExpr{X: &ast.BinaryExpr{X: isMal, Op: token.LOR, Y: isEOF}, Op: token.LOR, Y: isUEOF}
+		// (1) broken is marked only for those three reasons
+		holds, counter, decided := c.Prog.Implies(core.Formula{Fn: fn, Atoms: g.DominatingAtoms(broken), Subst: subst}, core.Formula{Fn: fn, Atoms: []core.Atom{{Expr: any3}}, Subst: subst})
+		if !decided {
+			core.Undecided("condition of the broken mark not decided: %s", counter)
+		}
+		o.Require(holds, "an object is marked broken for a reason other than malformed / end of input (%s)", counter)
 		// after marking: continue (the loop goes on), not return
 		for v := range g.ReachFrom(broken, false, core.AvoidVs(loopHeads(g)...)) {
 			if _, ok := v.AST.(*ast.ReturnStmt); ok {
 				o.FailAt(fn.Site(v.AST, ""), "marking an object broken is followed by a return")
 			}
 		}
-		// the other edge returns the error
-		fv := succ(guard, core.EdgeFalse)
+		// (2) the error is returned only when it is none of the three: together
+		// with (1) and the fact that a failed parse either marks or returns,
+		// each of the three reasons leads to the mark
 		retOK := false
-		for v := range g.ReachFrom(fv, true, core.AvoidVs(loopHeads(g)...)) {
-			if rs, ok := v.AST.(*ast.ReturnStmt); ok && core.ObjOf(info, rs.Results[0]) == errObj {
-				retOK = true
+		for _, r := range g.Returns() {
+			rs := r.AST.(*ast.ReturnStmt)
+			if len(rs.Results) == 0 || core.ObjOf(info, rs.Results[len(rs.Results)-1]) != errObj || !g.PathExists(dr[0].V, r, nil) {
+				continue
+			}
+			retOK = true
+			h2, c2, d2 := c.Prog.Implies(core.Formula{Fn: fn, Atoms: g.DominatingAtoms(r), Subst: subst}, core.Formula{Fn: fn, Atoms: []core.Atom{{Expr: any3, Neg: true}}, Subst: subst})
+			if !d2 {
+				core.Undecided("condition of the error return not decided: %s", c2)
+			}
+			if !h2 {
+				o.FailAt(fn.Site(rs, ""), "the scan is aborted for an error that should only mark the object broken (%s)", c2)
 			}
 		}
 		o.Require(retOK, "an error that is neither malformed nor end-of-input is not returned")
+		// a failed parse either marks or returns: from the err != nil edge nothing else is reachable
+		for _, bv := range g.BranchVertices() {
+			for _, l := range []core.EdgeLabel{core.EdgeTrue, core.EdgeFalse} {
+				for _, a := range bv.Implied(l) {
+					cmp, isCmp := a.AsCmp()
+					if !isCmp || cmp.Op != token.NEQ || core.ObjOf(info, cmp.L) != errObj || !core.IsNil(info, cmp.R) || !g.PathExists(dr[0].V, bv, nil) {
+						continue
+					}
+					var rets []*core.V
+					for _, r := range g.Returns() {
+						rets = append(rets, r)
+					}
+					reach := g.ReachFrom(succ(bv, l), true, core.AvoidVs(append(rets, broken)...).With(loopHeads(g)...))
+					for v := range reach {
+						if a2, ok := v.AST.(*ast.AssignStmt); ok && strings.HasSuffix(core.ExprStr(a2.Lhs[0]), ".ObjEnd") {
+							o.FailAt(fn.Site(a2, ""), "a failed parse can go on as if it had succeeded")
+						}
+					}
+				}
+			}
+		}
 		// ObjEnd recorded only for good objects
 		for _, v := range g.Vs {
 			if a, ok := v.AST.(*ast.AssignStmt); ok && strings.HasSuffix(core.ExprStr(a.Lhs[0]), ".ObjEnd") {
